@@ -25,7 +25,7 @@ import re
 from engine.cfg import call_name, cfg_of
 from engine.errors import AnalysisError
 from engine.repo import walk_no_nested
-from engine.util import calls_in, unparse
+from engine.util import calls_in, unparse, xsrc
 
 ID = 'C14'
 W = 'sdc11073.wsdiscovery.wsdimpl'
@@ -107,7 +107,7 @@ def run(ctx):  # noqa: C901, PLR0912, PLR0915
                f'{handler} is registered under {cls_name}.action and parses the body as {cls_name}', fi=fi, witness=sorted(parsed))
     g = cfg_of(hm)
     fcall = [n for n, a in g.nodes_where(lambda a: isinstance(a, ast.Call) and unparse(a.func) == 'func')]
-    ctx.ob('C14.R2', 'unknown action ignored', bool(fcall) and 'KeyError' in unparse(hm.node),
+    ctx.ob('C14.R2', 'unknown action ignored', bool(fcall) and 'KeyError' in xsrc(hm),
            'an unknown action is logged and not dispatched', fi=hm)
 
     # ------------------------------------------------------------------ R3
@@ -139,18 +139,18 @@ def run(ctx):  # noqa: C901, PLR0912, PLR0915
     eprg = [n for n in g.nodes if n.kind == 'return' and ('service.epr', False) in g.facts_at(n)]
     ctx.ob('C14.R3', 'announcement without epr ignored', bool(eprg), 'an announcement without epr is ignored', fi=ar)
     bye = repo.func(f'{W}.WSDiscovery._handle_received_bye')
-    src = unparse(bye.node)
+    src = xsrc(bye)
     rm = repo.func(f'{W}.WSDiscovery._remove_remote_service')
-    ok = 'epr = bye.EndpointReference.Address' in src and 'self._remove_remote_service(epr)' in src and \
-        'del self._remote_services[epr]' in unparse(rm.node)
+    ok = 'self._remove_remote_service(bye.EndpointReference.Address)' in src and \
+        bool(re.search(r'del self\._remote_services\[\w+\]', xsrc(rm)))
     ctx.ob('C14.R3', 'Bye removes', ok, 'a Bye removes the entry of its endpoint reference', fi=bye)
     for h, cls_ in (('_handle_received_hello', 'hello'), ('_handle_received_resolve_matches', 'match')):
         fi = repo.func(f'{W}.WSDiscovery.{h}')
-        src = unparse(fi.node)
-        ok = f'metadata_version={cls_}.MetadataVersion' in src and 'self._add_remote_service(service)' in src
+        src = xsrc(fi)
+        ok = bool(re.search(r'metadata_version=[\w.]+\.MetadataVersion', src)) and 'self._add_remote_service(' in src
         ctx.ob('C14.R3', f'{h} records with its version', ok, f'{h} records the announcement with its MetadataVersion', fi=fi)
     pm = repo.func(f'{W}.WSDiscovery._handle_received_probe_matches')
-    src = unparse(pm.node)
+    src = xsrc(pm)
     ctx.ob('C14.R3', 'probe matches recorded with their version',
            'metadata_version=match.MetadataVersion' in src and 'self._add_remote_service(service)' in src,
            'every ProbeMatch is recorded with its MetadataVersion', fi=pm)
@@ -160,7 +160,7 @@ def run(ctx):  # noqa: C901, PLR0912, PLR0915
     g = cfg_of(rs)
     sm = g.nodes_calling('_send_resolve_match')
     ok = bool(sm) and all(('epr in self._local_services', True) in g.facts_at(n) for n, _ in sm) and \
-        'epr = resolve.EndpointReference.Address' in unparse(rs.node)
+        'epr = resolve.EndpointReference.Address' in xsrc(rs)
     ctx.ob('C14.R4', 'Resolve guard', ok, 'a ResolveMatches is sent only for an epr of the locally published services',
            fi=rs)
     pr = repo.func(f'{W}.WSDiscovery._handle_received_probe')
@@ -169,7 +169,7 @@ def run(ctx):  # noqa: C901, PLR0912, PLR0915
     ok = len(fs) == 1 and [unparse(a) for a in fs[0].args] in (
         ['self._local_services.values()', 'probe.Types', 'scopes'],
         ['self._local_services.values()', 'probe.Types', 'probe.Scopes']) and \
-        ('scopes = probe.Scopes' in unparse(pr.node) or 'probe.Scopes' in unparse(fs[0]))
+        ('scopes = probe.Scopes' in xsrc(pr) or 'probe.Scopes' in unparse(fs[0]))
     sp = g.nodes_calling('_send_probe_match')
     ok = ok and bool(sp) and all(('services', True) in g.facts_at(n) and unparse(c.args[0]) == 'services' for n, c in sp)
     ctx.ob('C14.R4', 'Probe answer', ok,
